@@ -271,7 +271,7 @@ func settles(b behSpec) bool {
 
 func isConcOp(name string) bool {
 	switch name {
-	case "OConc", "OConcN", "OConcW", "OConcReg", "OConcS":
+	case "OConc", "OConcN", "OConcW", "OConcReg", "OConcS", "OConcStop":
 		return true
 	}
 	return false
@@ -394,6 +394,19 @@ func valid(ops []hx.T) bool {
 				for _, b := range t {
 					total += behSize(b)
 				}
+			}
+		case "OConcStop":
+			if m := o.Int(0); m != 0 && m != 2 && m != 5 {
+				return false
+			}
+			if w := o.Int(1); w < 0 || w > 1 {
+				return false
+			}
+			if n := o.Int(2); n < 0 || n > 900 {
+				return false
+			}
+			if k := o.Int(3); k < 0 || k > 32 {
+				return false
 			}
 		case "OConcS":
 			if m := o.Int(0); m < 0 || m >= 2 {
@@ -934,6 +947,11 @@ func Exec(ops []hx.T, tags map[string]bool) (obs any, nontrivial bool) {
 		case "OShare":
 			extra := r.startShared(o.Int(0), o.Int(1), o.Int(2), tags)
 			perOp = append(perOp, append(snapshot(), extra...))
+		case "OConcStop":
+			ev, g, e := runConcStop(o.Int(0), o.Int(1), o.Int(2), o.Int(3), tags)
+			gor, esc = gor && g, esc || e
+			nontrivial = true
+			perOp = append(perOp, ev)
 		case "OConcS":
 			ev, g, e := runConcS(o.Int(0), o.Int(1), o.Int(2), parseTasks(o.List(3)), tags)
 			gor, esc = gor && g, esc || e
